@@ -2,6 +2,7 @@ package main
 
 import (
 	"fmt"
+	"go/token"
 	"go/types"
 	"reflect"
 	"sort"
@@ -41,6 +42,40 @@ type builder struct {
 	st   *types.Struct
 	root *ssa.Call
 	name string
+	rg   *Region // the builder with the unexported helpers it shares with other builders
+	rootC *rctx  // activation in which the root element is created
+}
+
+// constIn: the constant string v stands for in activation c (a literal, or a helper parameter bound to one).
+func (b *builder) constIn(v ssa.Value, c *rctx) (string, bool) {
+	if s, ok := constStr(v); ok {
+		return s, true
+	}
+	if bo, ok := v.(*ssa.BinOp); ok && bo.Op == token.ADD {
+		l, okl := b.constIn(bo.X, c)
+		r, okr := b.constIn(bo.Y, c)
+		return l + r, okl && okr
+	}
+	os := b.rg.Origins(RV{V: v, C: c})
+	if len(os) == 1 {
+		if os[0].V != v || os[0].C != c {
+			return b.constIn(os[0].V, os[0].C)
+		}
+		return constStr(os[0].V)
+	}
+	return "", false
+}
+
+// elemIn: the element-creating call (etree.NewElement) that v stands for in activation c, with its activation.
+func (b *builder) elemIn(v ssa.Value, c *rctx) (*ssa.Call, *rctx) {
+	os := b.rg.Origins(RV{V: v, C: c})
+	if len(os) != 1 {
+		return nil, nil
+	}
+	if call, ok := os[0].V.(*ssa.Call); ok && calleeIs(call, etreePath+".NewElement") {
+		return call, os[0].C
+	}
+	return nil, nil
 }
 
 func splitQName(q string) (string, string) {
@@ -94,21 +129,42 @@ type origin struct {
 	idx   ssa.Value
 }
 
-// originOf traces v back to one field of the receiver.
+// originOf traces v (a value of the builder itself) back to one field of the receiver.
 func (b *builder) originOf(v ssa.Value, depth int) (*origin, string) {
-	if depth > 10 {
+	var top *rctx
+	if b.rg != nil {
+		top = b.rg.top
+	}
+	return b.originIn(v, top, depth)
+}
+
+// originIn traces v, a value of activation c of the builder's region, back to one field of the receiver: a parameter of
+// a helper is followed to the argument at its call site.
+func (b *builder) originIn(v ssa.Value, c *rctx, depth int) (*origin, string) {
+	if depth > 12 {
 		return nil, "too deep"
 	}
+	atTop := b.rg == nil || c == b.rg.top
+	recv := func(x ssa.Value) bool { return atTop && b.isRecv(x) }
 	switch x := v.(type) {
+	case *ssa.Parameter:
+		if !atTop && c != nil && c.site != nil {
+			for i, q := range c.fn.Params {
+				if q == x && i < len(c.site.Common().Args) {
+					return b.originIn(c.site.Common().Args[i], c.parent, depth+1)
+				}
+			}
+		}
+		return nil, "a parameter"
 	case *ssa.UnOp:
 		switch a := x.X.(type) {
 		case *ssa.FieldAddr:
-			if b.isRecv(a.X) {
+			if recv(a.X) {
 				return &origin{field: a.Field}, ""
 			}
 			return nil, "a nested field"
 		case *ssa.IndexAddr:
-			o, why := b.originOf(a.X, depth+1)
+			o, why := b.originIn(a.X, c, depth+1)
 			if o == nil {
 				return nil, why
 			}
@@ -119,19 +175,19 @@ func (b *builder) originOf(v ssa.Value, depth int) (*origin, string) {
 			return o, ""
 		case *ssa.Alloc:
 			if iv := initStore(a); iv != nil {
-				return b.originOf(iv, depth+1)
+				return b.originIn(iv, c, depth+1)
 			}
 			return nil, "a local assigned more than once"
 		default:
-			return b.originOf(x.X, depth+1)
+			return b.originIn(x.X, c, depth+1)
 		}
 	case *ssa.Alloc:
 		if iv := initStore(x); iv != nil {
-			return b.originOf(iv, depth+1)
+			return b.originIn(iv, c, depth+1)
 		}
 		return nil, "a local assigned more than once"
 	case *ssa.IndexAddr:
-		o, why := b.originOf(x.X, depth+1)
+		o, why := b.originIn(x.X, c, depth+1)
 		if o == nil {
 			return nil, why
 		}
@@ -141,19 +197,19 @@ func (b *builder) originOf(v ssa.Value, depth int) (*origin, string) {
 		o.elem, o.idx = true, x.Index
 		return o, ""
 	case *ssa.FieldAddr:
-		if b.isRecv(x.X) {
+		if recv(x.X) {
 			return &origin{field: x.Field}, ""
 		}
 		return nil, "a nested field"
 	case *ssa.Field:
-		if b.isRecv(x.X) {
+		if recv(x.X) {
 			return &origin{field: x.Field}, ""
 		}
 		return nil, "a nested field"
 	case *ssa.ChangeType:
-		return b.originOf(x.X, depth+1)
+		return b.originIn(x.X, c, depth+1)
 	case *ssa.Convert:
-		o, why := b.originOf(x.X, depth+1)
+		o, why := b.originIn(x.X, c, depth+1)
 		if o != nil {
 			if bt, ok := x.X.Type().Underlying().(*types.Basic); !ok || bt.Info()&types.IsString == 0 {
 				o.chain = append([]string{"convert"}, o.chain...)
@@ -165,13 +221,16 @@ func (b *builder) originOf(v ssa.Value, depth int) (*origin, string) {
 		if sc == nil || len(x.Call.Args) == 0 {
 			return nil, "a dynamic call"
 		}
-		o, why := b.originOf(x.Call.Args[0], depth+1)
+		o, why := b.originIn(x.Call.Args[0], c, depth+1)
 		if o == nil {
 			return nil, why
 		}
 		name := sc.String()
 		if name == "(time.Time).Format" {
-			l, _ := constStr(x.Call.Args[1])
+			l, ok := constStr(x.Call.Args[1])
+			if !ok && b.rg != nil {
+				l, _ = b.constIn(x.Call.Args[1], c)
+			}
 			name = "Format(" + l + ")"
 		}
 		o.chain = append([]string{name}, o.chain...)
@@ -258,38 +317,33 @@ func checkBuilders(r *Report, p *Prog) {
 	prefixNS := map[string]string{}
 	for _, b := range bs {
 		byType[b.T] = b
-		rets := map[ssa.Value]bool{}
-		for _, blk := range b.fn.Blocks {
-			if rt, ok := blk.Instrs[len(blk.Instrs)-1].(*ssa.Return); ok {
-				rets[Resolve(rt.Results[0])] = true
-			}
-		}
-		for _, blk := range b.fn.Blocks {
-			for _, in := range blk.Instrs {
-				c, ok := in.(*ssa.Call)
-				if !ok {
-					continue
-				}
-				if calleeIs(c, etreePath+".NewElement") && rets[ssa.Value(c)] {
-					b.root = c
-					b.name, _ = constStr(c.Call.Args[0])
-				}
-				if calleeIs(c, "(*"+etreePath+".Element).CreateAttr") {
-					n, _ := constStr(c.Call.Args[1])
-					if strings.HasPrefix(n, "xmlns:") {
-						v, okc := constStr(c.Call.Args[2])
-						pfx := strings.TrimPrefix(n, "xmlns:")
-						if !okc {
-							r.Bad("C07.schema", p.FnName(b.fn)+": namespace declaration "+n, p.InstrPos(in), "the namespace URI is not a constant")
-						} else if old, dup := prefixNS[pfx]; dup && old != v {
-							r.Bad("C07.schema", p.FnName(b.fn)+": namespace declaration "+n, p.InstrPos(in), fmt.Sprintf("prefix %s is bound to %q here and to %q elsewhere", pfx, v, old))
-						} else {
-							prefixNS[pfx] = v
-						}
-					}
+		b.rg = NewRegion(p, b.fn, 2)
+		// the root: the element every return hands back (created here or by a helper that prepares the root)
+		for _, rt := range returnsOf(b.fn) {
+			if call, cc := b.elemIn(rt.Results[0], b.rg.top); call != nil {
+				if n, ok := b.constIn(call.Call.Args[0], cc); ok {
+					b.root, b.rootC, b.name = call, cc, n
 				}
 			}
 		}
+		b.rg.Each(func(x RI) {
+			c, ok := x.I.(*ssa.Call)
+			if !ok || !calleeIs(c, "(*"+etreePath+".Element).CreateAttr") {
+				return
+			}
+			n, _ := b.constIn(c.Call.Args[1], x.C)
+			if strings.HasPrefix(n, "xmlns:") {
+				v, okc := b.constIn(c.Call.Args[2], x.C)
+				pfx := strings.TrimPrefix(n, "xmlns:")
+				if !okc {
+					r.Bad("C07.schema", p.FnName(b.fn)+": namespace declaration "+n, p.InstrPos(x.I), "the namespace URI is not a constant")
+				} else if old, dup := prefixNS[pfx]; dup && old != v {
+					r.Bad("C07.schema", p.FnName(b.fn)+": namespace declaration "+n, p.InstrPos(x.I), fmt.Sprintf("prefix %s is bound to %q here and to %q elsewhere", pfx, v, old))
+				} else {
+					prefixNS[pfx] = v
+				}
+			}
+		})
 	}
 	checkPrefixClosure(r, p, bs, byType)
 	pathTypes := responsePathTypes(p)
@@ -321,26 +375,36 @@ func checkBuilders(r *Report, p *Prog) {
 		}
 		read := map[int]bool{}
 		emitted := map[int][]ssa.Instruction{} // slice fields
-		locals := map[ssa.Value]string{}       // inline child elements: NewElement results other than the root
-		for _, blk := range fn.Blocks {
-			for _, in := range blk.Instrs {
-				if c, ok := in.(*ssa.Call); ok && calleeIs(c, etreePath+".NewElement") && c != b.root {
-					locals[c], _ = constStr(c.Call.Args[0])
-				}
-				// any read of a receiver field counts for coverage
-				if fa, ok := in.(*ssa.FieldAddr); ok && b.isRecv(fa.X) {
-					read[fa.Field] = true
-				}
-				if f, ok := in.(*ssa.Field); ok && b.isRecv(f.X) {
-					read[f.Field] = true
-				}
-			}
+		type elKey struct {
+			c *ssa.Call
+			x *rctx
 		}
-		guardOK := func(in ssa.Instruction, o *origin, cons string) {
+		locals := map[elKey]string{} // inline child elements: NewElement results other than the root
+		rg := b.rg
+		rg.Each(func(x RI) {
+			in := x.I
+			if c, ok := in.(*ssa.Call); ok && calleeIs(c, etreePath+".NewElement") && !(c == b.root && x.C == b.rootC) {
+				locals[elKey{c, x.C}], _ = b.constIn(c.Call.Args[0], x.C)
+			}
+			if x.C != rg.top {
+				return
+			}
+			// any read of a receiver field counts for coverage
+			if fa, ok := in.(*ssa.FieldAddr); ok && b.isRecv(fa.X) {
+				read[fa.Field] = true
+			}
+			if f, ok := in.(*ssa.Field); ok && b.isRecv(f.X) {
+				read[f.Field] = true
+			}
+		})
+		guardOK := func(x RI, o *origin, cons string) {
+			in := x.I
 			blk := in.Block()
 			fname := b.st.Field(o.field).Name()
 			var foreign []string
-			for _, nm := range a.B.Support(fc.Cond(blk)) {
+			xfc := rg.Ctx(a, x.C)
+			xfc.ensureConds()
+			for _, nm := range a.B.Support(xfc.AbsCond(blk)) {
 				ai := a.Atoms[nm]
 				if ai == nil {
 					continue
@@ -360,131 +424,136 @@ func checkBuilders(r *Report, p *Prog) {
 			}
 			r.Check(len(foreign) == 0, "C07.verbatim", cons+": guard", p.InstrPos(in), "guarded only by tests of "+fname, "emitted only under "+strings.Join(foreign, ", ")+", a condition on something other than the field itself")
 		}
-		for _, blk := range fn.Blocks {
-			for _, in := range blk.Instrs {
-				c, ok := in.(*ssa.Call)
-				if !ok || c.Call.StaticCallee() == nil || len(c.Call.Args) == 0 {
-					continue
-				}
-				target := c.Call.Args[0]
-				onRoot := target == ssa.Value(b.root)
-				_, onLocal := locals[target]
-				if !onRoot && !onLocal {
-					continue
-				}
-				switch c.Call.StaticCallee().String() {
-				case "(*" + etreePath + ".Element).CreateAttr":
-					an, okn := constStr(c.Call.Args[1])
-					cons := fmt.Sprintf("%s: attribute %s", tn, an)
-					if !okn {
-						r.Bad("C07.schema", tn+": attribute with a computed name", p.InstrPos(in), "the attribute name is not a constant")
-						continue
-					}
-					if strings.HasPrefix(an, "xmlns:") || an == "xmlns" {
-						continue
-					}
-					if _, isConst := c.Call.Args[2].(*ssa.Const); isConst {
-						// fixed value (e.g. Version="2.0"): the reader must have an attribute of that name
-						found := false
-						for i := 0; i < b.st.NumFields(); i++ {
-							k := readerName(b.st, i)
-							if k.mode == "attr" && k.name == lastLocal(an) {
-								found = true
-							}
-						}
-						r.Check(found, "C07.schema", cons+" (constant)", p.InstrPos(in), "read back by an attr field", "a constant attribute no field of "+tn+" reads")
-						continue
-					}
-					o, why := b.originOf(c.Call.Args[2], 0)
-					if o == nil {
-						r.Bad("C07.verbatim", cons, p.InstrPos(in), "the value is not one field of the receiver ("+why+"): "+fc.AP(c.Call.Args[2]))
-						continue
-					}
-					if !onRoot {
-						r.Bad("C07.schema", cons, p.InstrPos(in), "an attribute set on an inline child element cannot be tied to a struct tag")
-						continue
-					}
-					k := readerName(b.st, o.field)
-					apfx, alocal := splitQName(an)
-					okName := k.mode == "attr" && k.name == alocal && (k.ns == "" && apfx == "" || k.ns != "" && k.ns == prefixNS[apfx])
-					schemaCheck(okName, o.field, cons, p.InstrPos(in), fmt.Sprintf("field %s read as %s {%s}%s", b.st.Field(o.field).Name(), k.mode, k.ns, k.name), fmt.Sprintf("attribute %s (namespace %q) carries field %s, which is read back as %s {%s}%s", an, prefixNS[apfx], b.st.Field(o.field).Name(), k.mode, k.ns, k.name))
-					r.Check(formatterOK(b.st.Field(o.field).Type(), o.chain) && !o.elem, "C07.verbatim", cons+": value", p.InstrPos(in), "field "+b.st.Field(o.field).Name()+" "+strings.Join(o.chain, "∘"), fmt.Sprintf("the attribute value is %s applied to %s, not the field itself (or its fixed formatter)", strings.Join(o.chain, "∘"), b.st.Field(o.field).Name()))
-					guardOK(in, o, cons)
-				case "(*" + etreePath + ".Element).SetText":
-					cons := fmt.Sprintf("%s: character data of %s", tn, b.name)
-					if onLocal {
-						cons = fmt.Sprintf("%s: character data of child %s", tn, locals[target])
-					}
-					o, why := b.originOf(c.Call.Args[1], 0)
-					if o == nil {
-						r.Bad("C07.verbatim", cons, p.InstrPos(in), "the text is not one field of the receiver ("+why+"): "+fc.AP(c.Call.Args[1]))
-						continue
-					}
-					k := readerName(b.st, o.field)
-					if onRoot {
-						r.Check(k.mode == "chardata", "C07.schema", cons, p.InstrPos(in), "field "+b.st.Field(o.field).Name()+" is ,chardata", fmt.Sprintf("the text carries field %s, which is read back as %s %q", b.st.Field(o.field).Name(), k.mode, k.name))
-					} else {
-						cp, cl := splitQName(locals[target])
-						r.Check(k.mode == "element" && k.name == cl && (k.ns == "" || k.ns == prefixNS[cp]), "C07.schema", cons, p.InstrPos(in), fmt.Sprintf("field %s read as element {%s}%s", b.st.Field(o.field).Name(), k.ns, k.name), fmt.Sprintf("child %s (namespace %q) carries field %s, which is read back as %s {%s}%s", locals[target], prefixNS[cp], b.st.Field(o.field).Name(), k.mode, k.ns, k.name))
-					}
-					r.Check(formatterOK(b.st.Field(o.field).Type(), o.chain) && !o.elem, "C07.verbatim", cons+": value", p.InstrPos(in), "field "+b.st.Field(o.field).Name()+" "+strings.Join(o.chain, "∘"), fmt.Sprintf("the text is %s applied to %s, not the field itself", strings.Join(o.chain, "∘"), b.st.Field(o.field).Name()))
-					guardOK(in, o, cons)
-				case "(*" + etreePath + ".Element).AddChild":
-					if !onRoot {
-						continue
-					}
-					child := c.Call.Args[1]
-					if mi, ok := child.(*ssa.MakeInterface); ok {
-						child = mi.X
-					}
-					if _, isLocal := locals[child]; isLocal {
-						continue // an inline child: judged at its SetText
-					}
-					if cc, ok := child.(*ssa.Call); ok && cc.Call.StaticCallee() != nil && cc.Call.StaticCallee().Name() == "Element" && len(cc.Call.Args) == 1 {
-						cb := byType[namedOf(cc.Call.StaticCallee().Signature.Recv().Type())]
-						o, why := b.originOf(cc.Call.Args[0], 0)
-						cons := fmt.Sprintf("%s: child from %s", tn, shortFn(cc.Call.StaticCallee()))
-						if o == nil {
-							r.Bad("C07.schema", cons, p.InstrPos(in), "the child is not built from one field of the receiver ("+why+")")
-							continue
-						}
-						fname := b.st.Field(o.field).Name()
-						cons = fmt.Sprintf("%s: child element for field %s", tn, fname)
-						if cb == nil || cb.name == "" {
-							r.Undecided("C07.schema", cons, p.InstrPos(in), "the child's builder has no constant element name")
-							continue
-						}
-						k := readerName(b.st, o.field)
-						cp, cl := splitQName(cb.name)
-						schemaCheck(k.mode == "element" && k.name == cl && (k.ns == "" || k.ns == prefixNS[cp]), o.field, cons, p.InstrPos(in), fmt.Sprintf("%s read as element {%s}%s", cb.name, k.ns, k.name), fmt.Sprintf("the child is written as %s (namespace %q) but field %s is read back as %s {%s}%s", cb.name, prefixNS[cp], fname, k.mode, k.ns, k.name))
-						_, isSlice := b.st.Field(o.field).Type().Underlying().(*types.Slice)
-						if isSlice {
-							emitted[o.field] = append(emitted[o.field], in)
-							okLoop, whyLoop := unconditionalInLoop(c, o)
-							r.Check(o.elem && okLoop, "C07.order", fmt.Sprintf("%s: slice field %s", tn, fname), p.InstrPos(in), "one element per iteration, unconditionally, in index order", "the elements of "+fname+" are not all emitted in order: "+whyLoop)
-						} else {
-							guardOK(in, o, cons)
-						}
-						continue
-					}
-					// an opaque element field (Signature, EncryptedAssertion)
-					o, why := b.originOf(child, 0)
-					cons := fmt.Sprintf("%s: opaque child %s", tn, fc.AP(child))
-					if o == nil {
-						r.Bad("C07.schema", cons, p.InstrPos(in), "the child is not one field of the receiver ("+why+")")
-						continue
-					}
-					ft := b.st.Field(o.field).Type()
-					if sl, isSl := ft.Underlying().(*types.Slice); isSl && o.elem {
-						okLoop, whyLoop := unconditionalInLoop(c, o)
-						r.Check(typeIs(sl.Elem(), etreePath, "Element") && okLoop, "C07.order", fmt.Sprintf("%s: opaque children %s", tn, b.st.Field(o.field).Name()), p.InstrPos(in), "each element added in order", "the opaque children are not all added in order: "+whyLoop)
-						continue
-					}
-					r.Check(typeIs(ft, etreePath, "Element"), "C07.schema", cons, p.InstrPos(in), "an *etree.Element field", "a non-element field is added as a child without its builder")
-					guardOK(in, o, cons)
-				}
+		rg.Each(func(x RI) {
+			in := x.I
+			c, ok := in.(*ssa.Call)
+			if !ok || c.Call.StaticCallee() == nil || len(c.Call.Args) == 0 {
+				return
 			}
-		}
+			tcall, tctx := b.elemIn(c.Call.Args[0], x.C)
+			if tcall == nil {
+				return
+			}
+			onRoot := tcall == b.root && tctx == b.rootC
+			localName, onLocal := locals[elKey{tcall, tctx}]
+			if !onRoot && !onLocal {
+				return
+			}
+			xfc := rg.Ctx(a, x.C)
+			switch c.Call.StaticCallee().String() {
+			case "(*" + etreePath + ".Element).CreateAttr":
+				an, okn := b.constIn(c.Call.Args[1], x.C)
+				cons := fmt.Sprintf("%s: attribute %s", tn, an)
+				if !okn {
+					r.Bad("C07.schema", tn+": attribute with a computed name", p.InstrPos(in), "the attribute name is not a constant")
+					return
+				}
+				if strings.HasPrefix(an, "xmlns:") || an == "xmlns" {
+					return
+				}
+				if _, isConst := b.constIn(c.Call.Args[2], x.C); isConst {
+					// fixed value (e.g. Version="2.0"): the reader must have an attribute of that name
+					found := false
+					for i := 0; i < b.st.NumFields(); i++ {
+						k := readerName(b.st, i)
+						if k.mode == "attr" && k.name == lastLocal(an) {
+							found = true
+						}
+					}
+					r.Check(found, "C07.schema", cons+" (constant)", p.InstrPos(in), "read back by an attr field", "a constant attribute no field of "+tn+" reads")
+					return
+				}
+				o, why := b.originIn(c.Call.Args[2], x.C, 0)
+				if o == nil {
+					r.Bad("C07.verbatim", cons, p.InstrPos(in), "the value is not one field of the receiver ("+why+"): "+xfc.AP(c.Call.Args[2]))
+					return
+				}
+				if !onRoot {
+					r.Bad("C07.schema", cons, p.InstrPos(in), "an attribute set on an inline child element cannot be tied to a struct tag")
+					return
+				}
+				k := readerName(b.st, o.field)
+				apfx, alocal := splitQName(an)
+				okName := k.mode == "attr" && k.name == alocal && (k.ns == "" && apfx == "" || k.ns != "" && k.ns == prefixNS[apfx])
+				schemaCheck(okName, o.field, cons, p.InstrPos(in), fmt.Sprintf("field %s read as %s {%s}%s", b.st.Field(o.field).Name(), k.mode, k.ns, k.name), fmt.Sprintf("attribute %s (namespace %q) carries field %s, which is read back as %s {%s}%s", an, prefixNS[apfx], b.st.Field(o.field).Name(), k.mode, k.ns, k.name))
+				r.Check(formatterOK(b.st.Field(o.field).Type(), o.chain) && !o.elem, "C07.verbatim", cons+": value", p.InstrPos(in), "field "+b.st.Field(o.field).Name()+" "+strings.Join(o.chain, "∘"), fmt.Sprintf("the attribute value is %s applied to %s, not the field itself (or its fixed formatter)", strings.Join(o.chain, "∘"), b.st.Field(o.field).Name()))
+				guardOK(x, o, cons)
+			case "(*" + etreePath + ".Element).SetText":
+				cons := fmt.Sprintf("%s: character data of %s", tn, b.name)
+				if onLocal {
+					cons = fmt.Sprintf("%s: character data of child %s", tn, localName)
+				}
+				o, why := b.originIn(c.Call.Args[1], x.C, 0)
+				if o == nil {
+					r.Bad("C07.verbatim", cons, p.InstrPos(in), "the text is not one field of the receiver ("+why+"): "+xfc.AP(c.Call.Args[1]))
+					return
+				}
+				k := readerName(b.st, o.field)
+				if onRoot {
+					r.Check(k.mode == "chardata", "C07.schema", cons, p.InstrPos(in), "field "+b.st.Field(o.field).Name()+" is ,chardata", fmt.Sprintf("the text carries field %s, which is read back as %s %q", b.st.Field(o.field).Name(), k.mode, k.name))
+				} else {
+					cp, cl := splitQName(localName)
+					r.Check(k.mode == "element" && k.name == cl && (k.ns == "" || k.ns == prefixNS[cp]), "C07.schema", cons, p.InstrPos(in), fmt.Sprintf("field %s read as element {%s}%s", b.st.Field(o.field).Name(), k.ns, k.name), fmt.Sprintf("child %s (namespace %q) carries field %s, which is read back as %s {%s}%s", localName, prefixNS[cp], b.st.Field(o.field).Name(), k.mode, k.ns, k.name))
+				}
+				r.Check(formatterOK(b.st.Field(o.field).Type(), o.chain) && !o.elem, "C07.verbatim", cons+": value", p.InstrPos(in), "field "+b.st.Field(o.field).Name()+" "+strings.Join(o.chain, "∘"), fmt.Sprintf("the text is %s applied to %s, not the field itself", strings.Join(o.chain, "∘"), b.st.Field(o.field).Name()))
+				guardOK(x, o, cons)
+			case "(*" + etreePath + ".Element).AddChild":
+				if !onRoot {
+					return
+				}
+				child := c.Call.Args[1]
+				if mi, ok := child.(*ssa.MakeInterface); ok {
+					child = mi.X
+				}
+				if lc, lx := b.elemIn(child, x.C); lc != nil {
+					if _, isLocal := locals[elKey{lc, lx}]; isLocal {
+						return // an inline child: judged at its SetText
+					}
+				}
+				if cc, ok := child.(*ssa.Call); ok && cc.Call.StaticCallee() != nil && cc.Call.StaticCallee().Name() == "Element" && len(cc.Call.Args) == 1 {
+					cb := byType[namedOf(cc.Call.StaticCallee().Signature.Recv().Type())]
+					o, why := b.originIn(cc.Call.Args[0], x.C, 0)
+					cons := fmt.Sprintf("%s: child from %s", tn, shortFn(cc.Call.StaticCallee()))
+					if o == nil {
+						r.Bad("C07.schema", cons, p.InstrPos(in), "the child is not built from one field of the receiver ("+why+")")
+						return
+					}
+					fname := b.st.Field(o.field).Name()
+					cons = fmt.Sprintf("%s: child element for field %s", tn, fname)
+					if cb == nil || cb.name == "" {
+						r.Undecided("C07.schema", cons, p.InstrPos(in), "the child's builder has no constant element name")
+						return
+					}
+					k := readerName(b.st, o.field)
+					cp, cl := splitQName(cb.name)
+					schemaCheck(k.mode == "element" && k.name == cl && (k.ns == "" || k.ns == prefixNS[cp]), o.field, cons, p.InstrPos(in), fmt.Sprintf("%s read as element {%s}%s", cb.name, k.ns, k.name), fmt.Sprintf("the child is written as %s (namespace %q) but field %s is read back as %s {%s}%s", cb.name, prefixNS[cp], fname, k.mode, k.ns, k.name))
+					_, isSlice := b.st.Field(o.field).Type().Underlying().(*types.Slice)
+					if isSlice {
+						emitted[o.field] = append(emitted[o.field], in)
+						okLoop, whyLoop := unconditionalInLoop(c, o)
+						r.Check(o.elem && okLoop, "C07.order", fmt.Sprintf("%s: slice field %s", tn, fname), p.InstrPos(in), "one element per iteration, unconditionally, in index order", "the elements of "+fname+" are not all emitted in order: "+whyLoop)
+					} else {
+						guardOK(x, o, cons)
+					}
+					return
+				}
+				// an opaque element field (Signature, EncryptedAssertion)
+				o, why := b.originIn(child, x.C, 0)
+				cons := fmt.Sprintf("%s: opaque child %s", tn, xfc.AP(child))
+				if o == nil {
+					r.Bad("C07.schema", cons, p.InstrPos(in), "the child is not one field of the receiver ("+why+")")
+					return
+				}
+				ft := b.st.Field(o.field).Type()
+				if sl, isSl := ft.Underlying().(*types.Slice); isSl && o.elem {
+					okLoop, whyLoop := unconditionalInLoop(c, o)
+					r.Check(typeIs(sl.Elem(), etreePath, "Element") && okLoop, "C07.order", fmt.Sprintf("%s: opaque children %s", tn, b.st.Field(o.field).Name()), p.InstrPos(in), "each element added in order", "the opaque children are not all added in order: "+whyLoop)
+					return
+				}
+				r.Check(typeIs(ft, etreePath, "Element"), "C07.schema", cons, p.InstrPos(in), "an *etree.Element field", "a non-element field is added as a child without its builder")
+				guardOK(x, o, cons)
+			}
+		})
 		// slice fields: exactly one emission each
 		for i := 0; i < b.st.NumFields(); i++ {
 			if _, isSlice := b.st.Field(i).Type().Underlying().(*types.Slice); !isSlice || !read[i] {
@@ -1158,36 +1227,38 @@ func checkPrefixClosure(r *Report, p *Prog, bs []*builder, byType map[*types.Nam
 	isBuilderFn := map[*ssa.Function]bool{}
 	for _, b := range bs {
 		isBuilderFn[b.fn] = true
+		// helpers shared by the builders are builder code: a child built there belongs to the tree of the calling builder
+		for _, f := range b.rg.Fns {
+			isBuilderFn[f] = true
+		}
 		in := &info{declared: map[string]bool{}, used: map[string]bool{}}
 		infos[b] = in
-		for _, blk := range b.fn.Blocks {
-			for _, ins := range blk.Instrs {
-				c, ok := ins.(*ssa.Call)
-				if !ok || c.Call.StaticCallee() == nil {
-					continue
+		b.rg.Each(func(x RI) {
+			c, ok := x.I.(*ssa.Call)
+			if !ok || c.Call.StaticCallee() == nil {
+				return
+			}
+			switch {
+			case calleeIs(c, etreePath+".NewElement"):
+				if n, ok := b.constIn(c.Call.Args[0], x.C); ok {
+					if pf, _ := splitQName(n); pf != "" {
+						in.used[pf] = true
+					}
 				}
-				switch {
-				case calleeIs(c, etreePath+".NewElement"):
-					if n, ok := constStr(c.Call.Args[0]); ok {
-						if pf, _ := splitQName(n); pf != "" {
-							in.used[pf] = true
-						}
+			case calleeIs(c, "(*"+etreePath+".Element).CreateAttr"):
+				if n, ok := b.constIn(c.Call.Args[1], x.C); ok {
+					if strings.HasPrefix(n, "xmlns:") {
+						in.declared[strings.TrimPrefix(n, "xmlns:")] = true
+					} else if pf, _ := splitQName(n); pf != "" {
+						in.used[pf] = true
 					}
-				case calleeIs(c, "(*"+etreePath+".Element).CreateAttr"):
-					if n, ok := constStr(c.Call.Args[1]); ok {
-						if strings.HasPrefix(n, "xmlns:") {
-							in.declared[strings.TrimPrefix(n, "xmlns:")] = true
-						} else if pf, _ := splitQName(n); pf != "" {
-							in.used[pf] = true
-						}
-					}
-				case c.Call.StaticCallee().Name() == "Element" && len(c.Call.Args) == 1:
-					if cb := byType[namedOf(c.Call.StaticCallee().Signature.Recv().Type())]; cb != nil {
-						in.children = append(in.children, cb)
-					}
+				}
+			case c.Call.StaticCallee().Name() == "Element" && len(c.Call.Args) == 1:
+				if cb := byType[namedOf(c.Call.StaticCallee().Signature.Recv().Type())]; cb != nil {
+					in.children = append(in.children, cb)
 				}
 			}
-		}
+		})
 	}
 	memo := map[*builder]map[string]bool{}
 	var free func(b *builder, stack map[*builder]bool) map[string]bool
